@@ -21,7 +21,7 @@ TECHNIQUE = (
     "mirror of the registration history"
 )
 LEVEL_TEXT = (
-    "Held on every generated history: ~1e5 (quick) / ~4e6 (thorough) routed requests and ~2e4 / ~8e5 discovery queries over random "
+    "Held on every generated history: ~3e5 (quick) / ~9e6 (thorough) routed requests and ~6e4 / ~2e6 discovery queries over random "
     "trees (segments from {a,b,c,''}, path length <= 4, nested sites <= 3 levels, hidden resources, multi-valued rt/if/ct) with "
     "interleaved add/remove; says nothing about trees, paths or filter values outside those generators."
 )
@@ -47,17 +47,10 @@ ASSUMPTIONS = [
     "PathCapable leaves without get_resources_as_linkheader contribute no links",
 ]
 REQUIRED_MONITORS = {
-    "quick": {
-        "route_handler": 5000, "route_404": 2000, "stripped_path": 5000, "request_uri": 5000, "nested_hop": 1000, "two_level_hop": 100,
-        "longest_prefix": 50, "exact_over_subsite": 50, "empty_remainder_decisive": 50, "after_add": 1000, "after_remove": 300,
-        "wkc_listing": 1000, "wkc_listing_nested": 300, "wkc_filter": 1000, "wkc_filter_star": 200, "wkc_hidden": 100,
-    },
-    "thorough": {
-        "route_handler": 200000, "route_404": 80000, "stripped_path": 200000, "request_uri": 200000, "nested_hop": 40000, "two_level_hop": 4000,
-        "longest_prefix": 2000, "exact_over_subsite": 2000, "empty_remainder_decisive": 2000, "after_add": 40000, "after_remove": 12000,
-        "wkc_listing": 40000, "wkc_listing_nested": 12000, "wkc_filter": 40000, "wkc_filter_star": 8000, "wkc_hidden": 4000,
-    },
+    "quick": {"route_handler": 30000, "route_404": 40000, "stripped_path": 30000, "request_uri": 30000, "nested_hop": 10000, "two_level_hop": 2500, "longest_prefix": 1000, "exact_over_subsite": 1500, "empty_remainder_decisive": 200, "after_add": 8000, "after_remove": 3000, "wkc_listing": 7000, "wkc_listing_nested": 4000, "wkc_filter": 8000, "wkc_filter_star": 4000, "wkc_hidden": 3000, "path_sweep": 4000},
+    "thorough": {"route_handler": 900000, "route_404": 1200000, "stripped_path": 900000, "request_uri": 900000, "nested_hop": 300000, "two_level_hop": 75000, "longest_prefix": 30000, "exact_over_subsite": 45000, "empty_remainder_decisive": 6000, "after_add": 240000, "after_remove": 90000, "wkc_listing": 210000, "wkc_listing_nested": 120000, "wkc_filter": 240000, "wkc_filter_star": 120000, "wkc_hidden": 90000, "path_sweep": 120000},
 }
+EXHAUSTIVE = {"request_paths_up_to_length_3": "in every 8th history, all 85 Uri-Path lists of length <= 3 over {a,b,c,''} are requested against the final tree"}
 WORKER_TIMEOUT = {"quick": 600, "thorough": 7200}
 
 SEGS = ["a", "b", "c", ""]
@@ -158,7 +151,7 @@ def compose_uri(host_opt, ip, port, path, query):
 
 def dump_tree(site):
     return {
-        "resources": {href_of(p): {"id": l.id, "hidden": l.hidden, "params": list(l.params)} for p, l in site.res.items()},
+        "resources": {repr(list(p)): {"id": l.id, "hidden": l.hidden, "params": list(l.params)} for p, l in site.res.items()},
         "subsites": {repr(list(p)): (dump_tree(t) if isinstance(t, MSite) else {"sink": t.id, "links": t.links}) for p, t in site.sub.items()},
     }
 
@@ -306,9 +299,10 @@ class RawClient:
 # one history
 # ----------------------------------------------------------------------------------
 class Scenario:
-    def __init__(self, rep, loop, r, case, allow_rootmount=False, steps=60):
+    def __init__(self, rep, loop, r, case, allow_rootmount=False, steps=60, sweep=False):
         self.rep, self.loop, self.r, self.case = rep, loop, r, case
         self.allow_rootmount = allow_rootmount
+        self.sweep = sweep
         self.steps = steps
         self.hlog = HLOG
         self.cls = classes()
@@ -609,10 +603,10 @@ class Scenario:
             rep.count("trace_" + t)
         if not ran:
             if code == "4.04":
-                if rootmount:
+                if NF in expected:
+                    rep.count("accepted_4.04_for_empty_remainder_without_subsite_root_resource")
+                elif rootmount:
                     viol("route/subsite-at-empty-path-never-matched", "a nested site registered at the empty path [] (a proper prefix of every non-empty path) is never selected: 4.04 instead of delegation")
-                elif NF in expected:
-                    pass  # cannot happen: NF is only in `expected` when it is the only element
                 elif fresh == "added":
                     viol("route/added-registration-not-effective", "a registration added before this request did not take effect: 4.04")
                 else:
@@ -894,6 +888,13 @@ class Scenario:
                     elif r.random() < 0.5:
                         await self.do_wkc(forced_query=())
             await self.do_wkc(forced_query=())
+            if self.sweep:
+                import itertools
+
+                for n in range(4):
+                    for path in itertools.product(SEGS, repeat=n):
+                        await self.do_request(path)
+                        self.rep.monitor("path_sweep")
         finally:
             await self.teardown()
 
@@ -982,7 +983,7 @@ def run_shard(shard, rep, only=None):
                 k = case[1]
                 r = random.Random(shard["seed"] * 1_000_003 + k)
                 random.seed(shard["seed"] * 7919 + k)  # aiocoap draws MIDs/tokens from `random`
-                scn = Scenario(rep, loop, r, case, allow_rootmount=(k % 16 == 5), steps=r.choice([30, 60, 60, 90]))
+                scn = Scenario(rep, loop, r, case, allow_rootmount=(k % 16 == 5), steps=r.choice([30, 60, 60, 90]), sweep=(k % 8 == 3))
                 coro = scn.run_random()
             try:
                 loop.run_until_complete(coro)
